@@ -728,6 +728,52 @@ def _tree_cons(t, acc):
                 _tree_cons(a, acc)
 
 
+def _subvalues(j, acc):
+    acc.append(j)
+    if isinstance(j, dict):
+        if "q" in j:
+            for x in j["q"]:
+                _subvalues(x, acc)
+        elif "m" in j:
+            for k, v in j["m"]:
+                _subvalues(k, acc)
+                _subvalues(v, acc)
+
+
+def _real_conversions(case) -> list:
+    """what the real converters make of every sub-value of the input for the scalar classes validators see (so that the
+    Py-prim tables hold the floats / Decimals / texts that reach a validator after a conversion)"""
+    if str(REPO) not in sys.path:
+        sys.path.insert(0, str(REPO))
+    try:
+        from utype import Options, type_transform
+    except Exception:
+        return []
+    subs = []
+    _subvalues(case["value"], subs)
+    envc = c12.enum_classes(case.get("enums", []))
+    out = []
+    o = case.get("opts") or {}
+    flagsets = {(False, False), (bool(o.get("nec")), bool(o.get("ndl"))), (True, True), (False, True)}
+    for j in subs[:40]:
+        try:
+            x = c12.dec(j, envc)
+        except Exception:
+            continue
+        for cls in (float, Decimal, int, str):
+            for nec, ndl in flagsets:
+                try:
+                    y = type_transform(x, cls, options=Options(no_explicit_cast=nec, no_data_loss=ndl))
+                except BaseException:
+                    continue
+                if isinstance(y, int) and not isinstance(y, bool) and abs(y) > 10 ** 40:
+                    continue
+                if isinstance(y, str) and len(y) > 200:
+                    continue
+                out.append(y)
+    return out
+
+
 def pyprims_for(case, io) -> dict:
     """CPython builtins the generated validators take as parameters, for every scalar that can reach a validator:
     the scalars of the input, of the results, of the constraint values, their float / Decimal / str conversions and
@@ -739,13 +785,14 @@ def pyprims_for(case, io) -> dict:
             _tree_cons(f["ty"], cons)
     if not cons:
         return {"floatRepr": [], "decStr": [], "floatToDec": [], "floatRound": [], "re": []}
-    vals = []
+    vals = [0.0, 1.0, Decimal(0), Decimal(1), 0, 1, "", True, False]
     _walk_json_values(case["value"], vals)
     for k in ("out", "out_collect"):
         if k in io and "ok" in io[k]:
             _walk_json_values(io[k]["ok"], vals)
     for _, b in cons:
         vals += list(pyval.walk(b))
+    vals += _real_conversions(case)
     more = []
     for x in list(vals):
         if isinstance(x, str):
@@ -1515,7 +1562,7 @@ def gen_cases(tier, rng, n):
 # the check
 # ------------------------------------------------------------------------------------------------
 
-_NEG_OFFSET = re.compile(r"\d\s?-\d\d:?\d\d\s*$")
+_NEG_OFFSET = re.compile(r"\d\d:\d\d(:\d\d)?(\.\d+)?\s?-\d\d:?\d\d")
 
 
 def conv_stale(j) -> bool:
@@ -1524,6 +1571,19 @@ def conv_stale(j) -> bool:
     acc = []
     _walk_json_values(j, acc)
     return any(isinstance(x, str) and _NEG_OFFSET.search(x) for x in acc)
+
+
+def _enum_members(j, acc=None):
+    acc = [] if acc is None else acc
+    if isinstance(j, dict):
+        if "e" in j:
+            acc.append(tuple(j["e"]))
+        for v in j.values():
+            _enum_members(v, acc)
+    elif isinstance(j, list):
+        for v in j:
+            _enum_members(v, acc)
+    return acc
 
 
 def _has_key(j, key) -> bool:
@@ -1701,8 +1761,14 @@ class C01(Check):
                 return None
             vals = []
             _walk_json_values(case["value"], vals)
+            for k, i in _enum_members(case["value"]):
+                try:
+                    _walk_json_values(case["enums"][k]["members"][i][1], vals)      # `_attempt_from` unwraps a member to its value
+                except Exception:
+                    pass
             texts = [x for x in vals if isinstance(x, str)]
-            if base["t"] == "int" and any(x.lower() in c12.TRUE_WORDS + c12.FALSE_WORDS for x in texts):
+            tokens = [t for x in texts for t in re.split(r"[\s,;:=&\[\](){}\"']+", x)] + texts     # texts are split / parsed into items
+            if base["t"] == "int" and any(x.strip().lower() in c12.TRUE_WORDS + c12.FALSE_WORDS for x in tokens):
                 return "subclass-result-plain"            # to_integer: the literals 0 / 1 for the boolean words
             if base["t"] == "time" and (texts or _has_key(case["value"], "dt")):
                 return "subclass-result-plain"            # to_time: data.time() / to_datetime(text).time()
